@@ -13,8 +13,13 @@ PID = "C19"
 MANIFEST = dict(
     text="Lean theorems (decide +kernel, no axioms) over tables regenerated from the AST of tags.py/svg.py/__init__.py/"
          "generate_tags.py on every run: every wrapper has the canonical forwarding shape, its literal equals its name, its default "
-         "flag is the negation of membership in the project's inline list, names are distinct, the 17 shortcuts are re-exported; "
-         "C19_call derives the call behaviour (default / explicit / non-bool _add_ws). Every exported function is also called for real.",
+         "flag is the negation of membership in the project's inline list, names are distinct, the shortcuts are re-exported; "
+         "C19_call derives the call behaviour (default / explicit / non-bool _add_ws). Census by NAME, not by count (C19_census): every one "
+         "of the 113 html / 66 svg wrappers and 17 shortcuts recorded from the pinned tree (harness/mkcensus.py) still has a row / is still "
+         "re-exported — additions are allowed; C19_declared_exports: tags.__all__ and the __all__ written by scripts/generate_tags.py name "
+         "wrappers. Rows are emitted for public top-level functions only (private helpers are listed in translator_notes). On every run, "
+         "exhaustively and in both directions: every public callable the imported tags/svg modules expose is covered by a row of good shape, "
+         "every row and every census name is a public callable; every one of them is also called for real.",
     design="DESIGN.md §6 C19",
     note="Python call semantics of *args/**kwargs forwarding is trusted; the translator is the tie and is cross-checked against the imported modules.",
     technique="Lean 4 kernel decision (decide +kernel) over source-regenerated tables + exhaustive calls of all wrappers",
@@ -23,11 +28,38 @@ PROP_FILES = ["HtmlVerif/Props/C19.lean"]
 
 
 def exported_functions(mod):
+    """every public callable the module exposes at run time: names not starting with an underscore (plus whatever
+    `__all__` lists) whose value can be called — functions defined in the module, but also partials, lambdas, functions
+    imported from elsewhere — except what the module merely imports from htmltools._core for its annotations (`Tag`,
+    `TagAttrs`, …: the very same object under the same name there)"""
+    import htmltools._core as _core
+    listed = set(getattr(mod, "__all__", ()) or ())
     out = []
     for name, f in vars(mod).items():
-        if inspect.isfunction(f) and not name.startswith("_") and f.__module__ == mod.__name__:
-            out.append((name, f))
+        if name.startswith("_") and name not in listed:
+            continue
+        if inspect.ismodule(f) or not callable(f):
+            continue
+        if getattr(_core, name, None) is f or name == "annotations":
+            continue
+        out.append((name, f))
     return out
+
+
+def load_census():
+    """the names recorded from the pinned tree by harness/mkcensus.py (+ the digest the Lean copy carries)"""
+    import hashlib
+    import json
+    import os
+    import re
+    with open(os.path.join(core.VERIF, "corpus", "c19_census.json")) as f:
+        c = json.load(f)
+    dg = hashlib.sha1(json.dumps([c["html"], c["svg"], c["top"]]).encode()).hexdigest()
+    with open(os.path.join(core.VERIF, "lean", "HtmlVerif", "Spec", "TagCensus.lean"), encoding="utf-8") as f:
+        m = re.search(r"names-sha1: ([0-9a-f]{40})", f.read())
+    if dg != c.get("digest") or not m or m.group(1) != dg:
+        raise core.Infra("corpus/c19_census.json and lean/HtmlVerif/Spec/TagCensus.lean disagree: re-run harness/mkcensus.py")
+    return c
 
 
 def rand_args(rng):
@@ -61,15 +93,50 @@ def run(tier: str) -> int:
     mods = {"tags": htmltools.tags, "svg": htmltools.svg}
     n_fn = 0
     rows = {(r["mod"], r["fn"]) for r in info.get("html_rows", []) + info.get("svg_rows", [])}
+    census = load_census()
+    cen = {"tags": census["html"], "svg": census["svg"]}
+    runtime = {m: dict(exported_functions(mod)) for m, mod in mods.items()}
     for mname, mod in mods.items():
-        fns = exported_functions(mod)
-        # functions present at run time but absent from the regenerated table, and vice versa
-        names = {n for n, _ in fns} | {fn for (m, fn) in rows if m == mname}
+        # both directions, every run, exhaustive: every public callable of the module must be covered by a table row
+        # (the model answers `missing` otherwise), and every row — and every name of the recorded census — must be a
+        # public callable of the module (the implementation answers `missing` otherwise)
+        names = set(runtime[mname]) | {fn for (m, fn) in rows if m == mname} | set(cen[mname])
         for name in sorted(names):
             n_fn += 1
             for w in "NTFO":
                 lines.append(f"tagfn {es(mname)} {es(name)} {w}")
-    tops = sorted(set(info.get("reexports", [])) | {n for n in getattr(htmltools.tags, "__all__", ())})
+        for name in cen[mname]:
+            if name not in runtime[mname]:
+                ck.py_violation(f"tagfn {es(mname)} {es(name)} N", "missing",
+                                f"htmltools.{mname}.{name} is one of the {len(cen[mname])} public tag functions of the pinned tree "
+                                f"({census['commit']}) and is no longer there: calling it raises AttributeError",
+                                py=f"import htmltools; htmltools.{mname}.{name}()")
+        for name in sorted(runtime[mname]):
+            if (mname, name) not in rows:
+                ck.py_violation(f"tagfn {es(mname)} {es(name)} N", "?",
+                                f"htmltools.{mname}.{name} is a public callable of the module but the translator found no "
+                                f"`def {name}(*args, _add_ws=…, **kwargs)` for it in {mname}.py: not a generated tag wrapper, "
+                                f"so none of the C19 theorems covers it",
+                                py=f"import htmltools; htmltools.{mname}.{name}")
+    for name in census["top"]:
+        if not (hasattr(htmltools, name) and getattr(htmltools, name) is getattr(htmltools.tags, name, None) and name in htmltools.__all__):
+            ck.py_violation(f"reexport {es(name)}", "F",
+                            f"htmltools.{name} is one of the {len(census['top'])} top-level shortcuts of the pinned tree "
+                            f"({census['commit']}) and is no longer re-exported (attribute of htmltools, same object as "
+                            f"htmltools.tags.{name}, listed in htmltools.__all__)",
+                            py=f"import htmltools; htmltools.{name}('x'); '{name}' in htmltools.__all__")
+    tops = sorted(set(info.get("reexports", [])) | {n for n in getattr(htmltools.tags, "__all__", ())} | set(census["top"]))
+    n_rows = {m: len([1 for (mm, _) in rows if mm == m]) for m in mods}
+    ck.extra_cov["census"] = {
+        "reference_commit": census["commit"],
+        "reference": {"html": len(census["html"]), "svg": len(census["svg"]), "top": len(census["top"])},
+        "now_rows": {"html": n_rows["tags"], "svg": n_rows["svg"], "top": len(info.get("reexports", []))},
+        "now_runtime_public_callables": {"html": len(runtime["tags"]), "svg": len(runtime["svg"])},
+        "added_since_reference": {"html": sorted(set(runtime["tags"]) - set(census["html"])), "svg": sorted(set(runtime["svg"]) - set(census["svg"])),
+                                  "top": sorted(set(info.get("reexports", [])) - set(census["top"]))},
+        "tags___all___not_reexported_at_top_level": sorted(set(getattr(htmltools.tags, "__all__", ())) - set(info.get("reexports", []))),
+        "generator___all__": info.get("gen_tags_all"),
+    }
     for name in tops:
         lines.append(f"reexport {es(name)}")
     impl = [ops.run_line(l) for l in lines]
